@@ -251,13 +251,68 @@ func (cs *compSess) wire() []string {
 			out = append(out, "R")
 		case strings.HasPrefix(x, pre):
 			out = append(out, b.sentStr(x))
-		case strings.HasPrefix(x, "Tell "+opp+" "):
-			if cl := fpa.VerifResignText(x[len("Tell "+opp+" "):]); !strings.HasPrefix(cl, "other<") {
-				out = append(out, "T:"+cl)
+		case strings.HasPrefix(x, "Tell "):
+			rest := x[len("Tell "):]
+			i := strings.IndexByte(rest, ' ')
+			if i < 0 {
+				continue
+			}
+			name, text := rest[:i], rest[i+1:]
+			if name == opp {
+				if cl := fpa.VerifResignText(text); !strings.HasPrefix(cl, "other<") {
+					out = append(out, "T:"+cl)
+					continue
+				}
+			}
+			// replies of the chat commands (`level`, `help`), to the opponent (o) or to somebody else (x)
+			if cl := compReplyClass(text); cl != "" {
+				to := "x"
+				if name == opp {
+					to = "o"
+				}
+				out = append(out, "L:"+to+":"+cl)
 			}
 		}
 	}
 	return out
+}
+
+// compReplyClass names a reply of Friendly.handleCommand (with the level it mentions); "" for any other text
+func compReplyClass(text string) string {
+	var n int
+	switch {
+	case text == "OK! I'll play as best as I can!":
+		return "max"
+	case strings.HasPrefix(text, "I only know about levels up to "):
+		return "unknown"
+	}
+	if k, _ := fmt.Sscanf(text, "OK! I'll play at level %d for future games.", &n); k == 1 && text == fmt.Sprintf("OK! I'll play at level %d for future games.", n) {
+		return "future:" + strconv.Itoa(n)
+	}
+	if k, _ := fmt.Sscanf(text, "OK! I'll play at level %d, starting right now.", &n); k == 1 && text == fmt.Sprintf("OK! I'll play at level %d, starting right now.", n) {
+		return "now:" + strconv.Itoa(n)
+	}
+	if k, _ := fmt.Sscanf(text, "[FriendlyBot@level %d]: http://bit.ly/25h33rC", &n); k == 1 && text == fmt.Sprintf("[FriendlyBot@level %d]: http://bit.ly/25h33rC", n) {
+		return "help:" + strconv.Itoa(n)
+	}
+	return ""
+}
+
+// lvStr: f.level, how often f.ai was rebuilt by a chat command, the Depth of the engine built last, and the build of
+// the f.ai object the search in progress runs on
+func (cs *compSess) lvStr() string {
+	level, built, depth := cs.c.VerifLevel()
+	if level < 0 {
+		return "-"
+	}
+	cs.b.mu.Lock()
+	q := cs.search
+	cs.b.mu.Unlock()
+	gen := "-"
+	if q != nil {
+		gen = strconv.Itoa(cs.c.SearchGen)
+	}
+	return fmt.Sprintf("%d:%d:%d:%s", level, built, depth, gen)
 }
 
 func (cs *compSess) inStr() string {
@@ -290,8 +345,8 @@ func (cs *compSess) summary(r string) string {
 	cs.b.mu.Lock()
 	calls := cs.calls
 	cs.b.mu.Unlock()
-	return fmt.Sprintf("%s n=%d m=%d h=%d w=%d:%s in=%s c=%d r=%s", cs.status(), len(g.Positions), len(g.Moves), g.VerifP().Hash(),
-		len(w), last, cs.inStr(), calls, r)
+	return fmt.Sprintf("%s n=%d m=%d h=%d w=%d:%s in=%s c=%d lv=%s r=%s", cs.status(), len(g.Positions), len(g.Moves), g.VerifP().Hash(),
+		len(w), last, cs.inStr(), calls, cs.lvStr(), r)
 }
 
 func (cs *compSess) full() string {
